@@ -537,7 +537,8 @@ theorem sinkTag_reset {vr : Variant} (hr : vr.resetTargetPos = true) (g : Graph)
     (sinkTag vr g rs s n).tag =
       ((sinkMatching vr g rs n).any (fun r => (targetsOf r).any
           (targetHit g s (g.node n).name ((g.inE n).filter (fun e => e.etype == E_USED)))) ||
-       (codeSinkHit vr rs (g.node n) && (g.inE n).any (fun e => symWithStatesTag g s e.peer))) ∧
+       (codeSinkHit vr rs (g.node n) && (g.inE n).any (fun e =>
+          (!vr.codeSinkSymOnly || g.kindOf e.peer == K_SYMBOL) && symWithStatesTag g s e.peer))) ∧
     (sinkTag vr g rs s n).err = false := by
   unfold sinkTag
   simp only [hk, bne_self_eq_false, Bool.false_eq_true, if_false]
